@@ -67,18 +67,19 @@ def TS.seekBlock (s : TS α) (target : Nat) : TS α :=
   if k = s.skip then s else { s with skip := k, tailLoaded := false }
 /-- last document of the full block that contains `d` (`none` = tail block) -/
 def TS.blockEnd (s : TS α) (d : Nat) : Option Nat := (s.blocks.find? (fun b => decide (d ≤ b.1))).map (·.1)
-/-- mirrors: SegmentPostings::seek (deep) -/
+/-- the document after the current one in the decoded block (`TERMINATED` padding at the end) -/
+def TS.nextDoc (s : TS α) : Nat := match s.rest.tail with | (d, _) :: _ => d | [] => T
+/-- mirrors: SegmentPostings::seek (deep). `self.cur = (self.cur + 1).min(BLOCK_SIZE - 1)`: if the
+cursor is not at the end of the decoded block and the next document is `≥ target`, nothing else
+moves; otherwise `block_cursor.seek(target)` = `seek_block` + `load_block` + search in the block -/
 def TS.seek (s : TS α) (target : Nat) : TS α :=
   if target ≤ s.doc then s
+  else if (!(s.blockEnd s.doc == some s.doc) && decide (target ≤ s.nextDoc)) then { s with rest := s.rest.tail }
   else
-    -- `self.cur = (self.cur + 1).min(BLOCK_SIZE - 1)`: the next document of the decoded block
-    let atBlockEnd := s.blockEnd s.doc == some s.doc
-    let nextDoc := match s.rest.tail with | (d, _) :: _ => d | [] => T
-    if !atBlockEnd && decide (target ≤ nextDoc) then { s with rest := s.rest.tail }
-    else
-      let s' := s.seekBlock target
-      { s' with rest := s.rest.dropWhile (fun p => decide (p.1 < target)),
-                tailLoaded := if s'.skip = s'.blocks.length then true else s'.tailLoaded }
+    { s.seekBlock target with
+        rest := s.rest.dropWhile (fun p => decide (p.1 < target)),
+        tailLoaded := if (s.seekBlock target).skip = (s.seekBlock target).blocks.length then true
+                      else (s.seekBlock target).tailLoaded }
 /-- mirrors: SegmentPostings::advance -/
 def TS.advance (s : TS α) : TS α :=
   if s.blockEnd s.doc == some s.doc then
@@ -113,11 +114,13 @@ def restoreOrdering (arr : List (TS α)) (ord : Nat) : List (TS α) :=
     arr.take ord ++ following.takeWhile (fun s => decide (s.doc < x.doc)) ++ [x]
       ++ following.dropWhile (fun s => decide (s.doc < x.doc))
 
-/-- mirrors: Vec::swap_remove -/
+/-- mirrors: Vec::swap_remove — the last element takes the place of the removed one -/
 def swapRemove (arr : List (TS α)) (i : Nat) : List (TS α) :=
   match arr.getLast? with
   | none => arr
-  | some last => if i + 1 = arr.length then arr.dropLast else (arr.set i last).dropLast
+  | some last =>
+    if i + 1 < arr.length then arr.take i ++ last :: (arr.drop (i + 1)).dropLast
+    else arr.dropLast
 
 /-- index of the block that contains document `d` (`blocks.length` = tail block) -/
 def TS.blockIdx (s : TS α) (d : Nat) : Nat := (s.blocks.takeWhile (fun b => decide (b.1 < d))).length
